@@ -94,6 +94,40 @@ def contract_oracle(ctx, key, md, rng, npts):
         if f.shape != x.shape:
             ctx.violation(f"shape:{key}", f"{key}: output shape {f.shape} != abscissa shape {x.shape}", rep)
             continue
+        # the returned array belongs to the caller: writing into it must not change what an equal call returns
+        f_keep = f.copy()
+        f[:] = f - 1.0e-9
+        with warnings.catch_warnings():
+            warnings.simplefilter("ignore")
+            f_again = md.model(p, x.copy())
+            r_again = md.residual(p, x.copy(), f_keep.copy(), 0)
+        if not np.array_equal(f_again, f_keep):
+            ctx.violation(f"result-aliased:{key}", f"{key}: after the caller wrote into the array returned by model(), an "
+                          "equal call returns different values (the result is shared with an internal cache)", rep)
+        if np.any(np.abs(np.asarray(r_again)) > 1e-9 * max(float(np.max(np.abs(f_keep))), 1e-300)):
+            ctx.violation(f"residual-after-write:{key}", f"{key}: residual of data = model is not zero after the caller "
+                          "wrote into an earlier model() result", rep)
+        f = f_keep
+        # no point in contact (contact point at or below the deepest sample): an array of the baseline, same shape
+        for cp_out in (float(np.min(x)), float(np.min(x)) - 2e-7):
+            p0 = copy.deepcopy(p)
+            p0["contact_point"].set(value=cp_out)
+            with warnings.catch_warnings():
+                warnings.simplefilter("ignore")
+                try:
+                    fo = md.model(p0, x.copy())
+                    ro = md.residual(p0, x.copy(), np.full_like(x, p0["baseline"].value), 0)
+                except BaseException as e:  # noqa
+                    ctx.violation(f"no-contact-raises:{key}:{orient}", f"{key}: model()/residual() with no point in "
+                                  f"contact ({orient} abscissa) raises {type(e).__name__}: {e}", rep)
+                    continue
+            if not isinstance(fo, np.ndarray) or fo.shape != x.shape or not np.all(fo == p0["baseline"].value):
+                ctx.violation(f"no-contact-output:{key}", f"{key}: with no point in contact model() returns "
+                              f"{type(fo).__name__} of shape {getattr(fo, 'shape', None)} instead of an array of the "
+                              "baseline with the shape of the abscissa", rep)
+            elif np.shape(ro) != x.shape or np.any(np.asarray(ro) != 0):
+                ctx.violation(f"no-contact-residual:{key}", f"{key}: residual of baseline data with no point in contact "
+                              "is not an array of zeros", rep)
         f_ref = md.model(p, x_desc)
         if orient == "ascending" and not np.allclose(f, f_ref[::-1], rtol=1e-12, atol=0):
             ctx.violation(f"order:{key}", f"{key}: ascending abscissa does not give the reversed forces", rep)
